@@ -320,9 +320,10 @@ def selfcheck():
 
 
 class Adapter:
-    def __init__(self, variant: str, fresh: bool = False):
+    def __init__(self, variant: str, fresh: bool = False, builtin_name: str | None = None):
         self.variant = variant
         self.flavor, self.classes, builtin = VARIANTS[variant]
+        builtin = builtin_name or builtin
         self.real = variant in ("megacomplex", "data_io", "project_io")
         self.fresh = fresh or not self.real
         self.builtin = None if self.fresh else builtin
@@ -443,8 +444,8 @@ class Adapter:
 
 
 class History:
-    def __init__(self, variant: str, fresh: bool = False):
-        self.ad = Adapter(variant, fresh).open()
+    def __init__(self, variant: str, fresh: bool = False, builtin_name: str | None = None):
+        self.ad = Adapter(variant, fresh, builtin_name).open()
         try:
             self.pre_objs = dict(self.ad.reg)
             self.model = RegistryModel(self.ad.flavor, [_fq(c) for c in self.ad.classes], self.ad.pre())
@@ -481,7 +482,9 @@ class History:
     def apply(self, op: dict, observe: bool = True):
         self.ops.append(op)
         kind = op["op"]
-        if kind == "reg":
+        if kind == "reg" and op.get("escalate"):
+            self._register_escalated(op["cls"], list(op["names"]))
+        elif kind == "reg":
             self._register(op["cls"], list(op["names"]))
         elif kind == "set":
             self._set(op["short"], op["target"])
@@ -546,6 +549,34 @@ class History:
             self.tags.add("first-or-repeat")
         if len(names) > 1:
             self.tags.add("multi-format")
+
+    def _register_escalated(self, cls, names):
+        """A single-name registration while PluginOverwriteWarning is turned into an error (``-W error``): a conflicting
+        registration is then refused by that exception - what was bound before stays; whether the refused plugin is
+        reachable under its own full name is left open."""
+        m = self.model
+        if len(names) != 1 or "." in names[0]:
+            return
+        snap = m.snapshot()
+        exp = m.register(cls, names)
+        raised = None
+        with warnings.catch_warnings():
+            warnings.simplefilter("error", PluginOverwriteWarning)
+            try:
+                self.ad.register(cls, names)
+            except PluginOverwriteWarning as w:
+                raised = w
+            except Exception as e:  # noqa: BLE001
+                raise Violation("reg.call", f"{type(e).__name__}: {e} | {self.where()}") from e
+        if raised is not None:
+            check(exp["warn_max"] >= 1, "reg.repeat_silent", lambda: f"PluginOverwriteWarning where none is due | {self.where()}")
+            m.restore(snap)
+            fn = m.full_name(cls, names[0])
+            if fn not in m.full:
+                m.open_full.add(fn)
+            self.tags.add("conflict-refused-by-escalated-warning")
+        else:
+            check(exp["warn_min"] == 0, "reg.conflict_warns", lambda: f"no PluginOverwriteWarning for a conflicting registration | {self.where()}")
 
     def _set(self, short, target):
         if target in self.model.open_full and target not in self.model.full:
@@ -651,7 +682,9 @@ class History:
         mod = dreg if self.ad.variant == "data_io" else preg
         if name in self.model.open_full and name not in self.model.full and name not in self.model.short:
             return  # left open by a failed registration
-        ident = self.model.resolve(name)
+        # (inference from the extension reads '.yml' as the format 'yaml': io_plugin_utils.infer_file_format)
+        lookup = "yaml" if (mode == "inferred" and name == "yml") else name
+        ident = self.model.resolve(lookup)
         if ident is not None and ident[0] == "pre":
             self.tags.add("dispatch-skipped-builtin")
             return  # would run a real built-in plugin on a dummy file
@@ -686,7 +719,7 @@ class History:
         check(ident is not None, "dispatch.unknown_raises", lambda: f"{fn} with unknown format {name!r} did not raise | {self.where()}")
         check(len(CALLS) == 1, "dispatch.one_call", lambda: f"{len(CALLS)} plugin calls | {self.where()}")
         plugin, method, file_arg, obj = CALLS[0]
-        check(self.ad.same(plugin, ident, self.pre_objs) and plugin is self.ad.get(name), "dispatch.plugin",
+        check(self.ad.same(plugin, ident, self.pre_objs) and plugin is self.ad.get(lookup), "dispatch.plugin",
               lambda: f"{fn}({name!r}, {mode}) went to {type(plugin).__name__}/{plugin.format}, model {ident} | {self.where()}")
         check(method == fn, "dispatch.method", lambda: f"{method} called for {fn} | {self.where()}")
         check(file_arg == path.as_posix(), "dispatch.file", lambda: f"plugin got {file_arg!r} for {path} | {self.where()}")
@@ -711,6 +744,7 @@ def alphabet(variant: str, with_builtin: bool) -> list[dict]:
         for s in (["va"], ["vb"]):
             ops.append({"op": "reg", "cls": ci, "names": s})
     ops.append({"op": "reg", "cls": 0, "names": ["<dots>"]})
+    ops.append({"op": "reg", "cls": 1, "names": ["va"], "escalate": True})  # refused by the escalated warning when 'va' belongs to another plugin
     ops.append({"op": "reg", "cls": 1, "names": ["va", "v.c"]})  # fails after a valid name (only applied when 'va' is bound)
     ops.append({"op": "reg", "cls": 2, "names": ["va", "vb"]})
     ops.append({"op": "reg", "cls": 3, "names": ["vb", "va"]})
@@ -801,14 +835,37 @@ def dispatch_cases(tier: str) -> list:
     return out
 
 
+def builtin_names(variant: str) -> list[str]:
+    reg = _pristine()[variant][0]
+    return sorted(k for k in reg if "." not in k and not k.endswith("_str"))
+
+
+def dispatch_builtin_cases(tier: str) -> list:
+    """Every built-in format name taken over by a harness plugin (conflicting registration, then set_*_plugin), then every
+    convenience function with that name given explicitly / inferred from the extension."""
+    out = []
+    for variant in ("data_io", "project_io"):
+        for b in builtin_names(variant):
+            for extra in (None, {"op": "reg", "cls": 1, "names": [b]}, {"op": "set", "short": "va", "target": "<full:0>"}):
+                out.append({"variant": variant, "builtin": b, "extra": extra})
+    return out
+
+
 def prop_dispatch(case):
     variant = case["variant"]
-    h = History(variant, fresh=True)
+    b = case.get("builtin")
+    h = History(variant, fresh=b is None, builtin_name=b)
     try:
+        if b is not None:
+            full = h.model.full_name(0, b)
+            prefix = [{"op": "reg", "cls": 0, "names": [b]}, {"op": "set", "short": b, "target": full}]
+            if case["extra"]:
+                prefix.append({k: (full if v == "<full:0>" else v) for k, v in case["extra"].items()})
+            case = dict(case, prefix=prefix)
         for op in case["prefix"]:
             h.apply(op)
         funcs = DATA_FUNCS if variant == "data_io" else PROJECT_FUNCS
-        names = [n for n in h.query_names if n != "v.c"]
+        names = [n for n in h.query_names if n != "v.c"] if b is None else [b]
         n_calls = 0
         for fn in funcs:
             for name in names:
@@ -881,7 +938,10 @@ class RegistryMachine(RuleBasedStateMachine):
     @rule(data=st.data(), cls=st.integers(0, 3))
     def register(self, data, cls):
         names = data.draw(_names_strategy(self.h.ad.builtin))
-        self._step({"op": "reg", "cls": cls, "names": names})
+        if len(names) == 1 and "." not in names[0] and data.draw(st.integers(0, 3)) == 0:
+            self._step({"op": "reg", "cls": cls, "names": names, "escalate": True})
+        else:
+            self._step({"op": "reg", "cls": cls, "names": names})
 
     @precondition(lambda self: self.h is not None)
     @rule(data=st.data())
@@ -972,6 +1032,8 @@ PROPERTY = Property(
                 "instantiated plugins) and the megacomplex / data_io / project_io registries inside monkeypatch_plugin_registry_*"),
         Sub("dispatch", prop=prop_dispatch, enumerate=dispatch_cases, exhaustive=True,
             doc="all histories up to length 2 (quick) / 3 (thorough); every load_*/save_* x every name x explicit / inferred format hits recording plugins"),
+        Sub("dispatch_builtin", prop=prop_dispatch, enumerate=dispatch_builtin_cases, exhaustive=True,
+            doc="every built-in format name re-pointed to a harness plugin, then dispatched by every convenience function"),
         Sub("machine", machine=lambda: RegistryMachine, replay_steps=replay_steps,
             budget={"quick": 600, "thorough": 50000}, steps={"quick": 40, "thorough": 40}),
     ],
